@@ -282,7 +282,9 @@ func (p *parser) parsePermits() {
 				optional(":", "boolean"), "=>",
 			)
 
-			rewrite := simplifyExpression(p.parsePermissionExpressions(itemOperatorComma, expressionNestingMaxDepth))
+			// The top level is not a nesting level yet, so exactly
+			// expressionNestingMaxDepth nested '(' and '!' are allowed.
+			rewrite := simplifyExpression(p.parsePermissionExpressions(itemOperatorComma, expressionNestingMaxDepth+1))
 			if rewrite == nil {
 				return
 			}
